@@ -51,8 +51,12 @@ class ChannelList(gpp.UGenSequence, aob.AbstractSequence, list):
     ### UGen convenience methods (keep in sync with UGen) ###
 
     def _multichannel_perform(self, selector, *args):
-        l = [gpp.ugen_param(i) for i in self]
-        l = [getattr(i[0], selector)(*i[1:]) for i in utl.flop([l, *args])]
+        l = []
+        for item, *rest in utl.flop([list(self), *args]):
+            if isinstance(item, list):  # Nested channels expand recursively.
+                l.append(type(self)(item)._multichannel_perform(selector, *rest))
+            else:
+                l.append(getattr(gpp.ugen_param(item), selector)(*rest))
         return type(self)(l)
 
     def dup(self, n=2):
